@@ -781,7 +781,39 @@ struct ArraysWorld : World {
 				else if (!fired && !len) M3[h].clear();
 				break;
 			}
-			case OP_X_PRINTF: break;
+			case OP_X_PRINTF: {
+				// episode on temporary C++ arrays: content from a value (text, byte vector), copy construction, assignment and
+				// appending of an iovec through a copy - the original must keep reading what it was given
+				std::string text = "t"; for (size_t i = 0; i < (size_t) op.c % 70; ++i) text.push_back((char) ('a' + (op.c + i * 7) % 26));
+				Block tb(text.size() + 1, 0); memcpy(tb.p, text.c_str(), text.size() + 1);
+				const char *cs = (const char *) tb.p; struct iovec vec; vec.iov_base = src.p; vec.iov_len = len;
+				bool astext = (op.c & 1) != 0;
+				value v; if (astext) v.set('s', &cs); else v.set(TypeVector, &vec);
+				array *t; { Sut s; t = new array(); }
+				int rc; { Sut s(failn); rc = t->set(v); fired = g.fired; }
+				std::vector<uint8_t> want; if (astext) { want.assign(text.begin(), text.end()); want.push_back(0); } else want = vals;
+				log.ev("X_EPISODE set(%s of %zu bytes)%s -> %d", astext ? "text" : "vector", want.size(), fired ? " allocfail" : "", rc);
+				auto reads = [&](const array *a, const std::vector<uint8_t> &w, const char *what) {
+					const array::content *d = a->data(); size_t n = d ? d->length() : 0; const uint8_t *b = d ? (const uint8_t *) d->data() : 0;
+					if (n != w.size() || (n && memcmp(b, w.data(), n))) { size_t k = 0; while (k < n && k < w.size() && b[k] == w[k]) ++k;
+						fail("wrong-content", "C++ array %s reads %zu bytes, %zu were given (first difference at %zu)", what, n, w.size(), k); }
+				};
+				if (rc < 0) { if (!fired) fail("refused-valid", "C++ array set(value: %s of %zu bytes) refused (%d) without allocation fault", astext ? "text" : "vector", want.size(), rc); }
+				else {
+					reads(t, want, "set from a value");
+					array *c; { Sut s; c = new array(*t); }
+					reads(c, want, "copy-constructed");
+					std::vector<uint32_t> v2 = fresh(1 + len % 9); std::vector<uint8_t> b2(v2.begin(), v2.end()); Block s2(b2.size(), 0); memcpy(s2.p, b2.data(), b2.size());
+					struct iovec add; add.iov_base = s2.p; add.iov_len = b2.size();
+					if (op.c & 2) { { Sut s; *c += add; } std::vector<uint8_t> w2 = want; if (!astext) { w2.insert(w2.end(), b2.begin(), b2.end()); reads(c, w2, "appended to through a copy"); } }
+					else { { Sut s; *c = add; } reads(c, b2, "assigned an iovec through a copy"); }
+					reads(t, want, "after its copy was written to");
+					{ Sut s; delete c; }
+					outcome = 1;
+				}
+				{ Sut s; delete t; }
+				break;
+			}
 			case OP_X_TINSERT: case OP_X_TSET: case OP_X_RESIZE: case OP_X_RESERVE: case OP_X_DETACH: {
 				long usedn = PA[h]->length(); uint32_t val = fresh(1)[0] | 0x01000000u;
 				long tpos = (long) sel(op.b & 0xff, (int) ((op.b >> 8) & 0xf), (size_t) usedn, (size_t) usedn + 2, (uint64_t) op.c); if (tpos > 40) tpos = 40;
